@@ -48,7 +48,9 @@ SCENARIOS = ["doc_date", "doc_date_ctor", "uncertainty", "sec_card", "prop_card"
              "merge_wrong_kind", "remove_non_child", "remove_wrong_kind", "extend_ill_typed",
              "extend_not_iterable", "new_id_bad", "prop_parent_doc", "sec_parent_prop",
              "append_scalar", "setitem_wrong_kind", "setitem_out_of_range", "reorder_detached",
-             "values_unconvertible", "dtype_unconvertible", "create_property_bad_values"]
+             "values_unconvertible", "dtype_unconvertible", "create_property_bad_values",
+             "merge_unconvertible_empty_typed", "link_bad_after_good", "link_merge_refused",
+             "include_merge_refused", "include_bad_after_good"]
 
 
 def _secs(doc):
@@ -134,6 +136,56 @@ def scenario_body(case):
             src.sections[0].properties[0].reference = "filled"
             before = snap.identity(universe)
             other.merge(src, strict=bool(b % 2))
+        elif name == "merge_unconvertible_empty_typed":
+            dest = odml.Property(name="typed-empty", dtype=["int", "date", "boolean"][b % 3], parent=other)
+            src = other.clone()
+            universe.append(dest)
+            universe.extend(snap.reachable([src]))
+            sp = src.properties["typed-empty"]
+            sp.dtype = "string"
+            sp.values = ["abc"]
+            sp.unit = "kg"
+            sp.definition = "from src"
+            src.properties[0].reference = "filled earlier"
+            before = snap.identity(universe)
+            if b % 2:
+                other.merge(src, strict=False)
+            else:
+                dest.merge(sp, strict=False)
+        elif name in ("link_bad_after_good", "link_merge_refused", "include_merge_refused",
+                      "include_bad_after_good"):
+            tgt = odml.Section(name="link-target", type="t", parent=doc)
+            odml.Property(name="p", values=["abc"], dtype="string", unit="kg", parent=tgt)
+            odml.Section(name="tsub", type="t", parent=tgt)
+            lnk = odml.Section(name="linking", type="t", parent=sec if b % 2 else doc)
+            if name.endswith("merge_refused"):
+                odml.Property(name="p", values=[1], dtype="int", parent=lnk)
+            if name.startswith("include"):
+                tmpdir = env.fresh_dir("c06")
+                path = os.path.join(tmpdir, "inc.xml")
+                d2 = odml.Document()
+                t2 = tgt.clone()
+                d2.append(t2)
+                odml.save(d2, path)
+                good = "file://%s#/link-target" % path
+                bad = ["file://%s#/nowhere" % path, "file:///nonexistent-%d/x.xml#/a" % b][b % 2]
+            else:
+                good = "/link-target"
+                bad = ["/nowhere", "../../../nope", "tsub/none"][b % 3]
+            if name.endswith("bad_after_good"):
+                if name.startswith("include"):
+                    lnk.include = good
+                else:
+                    lnk.link = good
+                if not lnk.is_merged:
+                    raise RuntimeError("scenario setup: link was not resolved")
+            universe = snap.reachable([doc, other])
+            before = snap.identity(universe)
+            target_value = bad if name.endswith("bad_after_good") else good
+            if name.startswith("include"):
+                lnk.include = target_value
+            else:
+                lnk.link = target_value
         elif name == "merge_wrong_kind":
             if b % 2:
                 other.properties[0].merge(sec)
